@@ -25,6 +25,8 @@ ops (one case = the requests sent over ONE connection, in order; or one `tokens`
                 written together with the next request before any response is read
     tokens <k>     start k further servers; compare all tokens of this run
     anchor generate_token   shape of `generate_token` in the source tree the binary was built from
+    uri <hex>      `http::Uri::try_from(bytes)` (the parser hyper applies to the request-target) and
+                   `Uri::path()`, called in-process on arbitrary bytes
     enc <hex>      `nix_base32::to_nix_base32` on these bytes
 
 out:
@@ -37,6 +39,7 @@ out:
     tokens distinct=<yes|no> len=<n|mixed> alphabet=<ok|bad> varied=<yes|no>
         (varied: no character position is the same in all compared tokens)
     tok <string> | panic
+    path <hex> | err
 -/
 namespace C18
 open Server Proto
@@ -175,6 +178,27 @@ def tokensLine : String := "tokens distinct=yes len=39 alphabet=ok varied=yes"
 /-- the source anchor of the unprovable clause (see `judgeAnchor`) -/
 def anchorLine : String := "anchor generate_token fn=found buf=24 rng=rand::rng() fill=fill_bytes:whole enc=to_nix_base32:whole shadow=no"
 
+/-- The bytes of a request-target as the character string the model works on. The parser never looks
+at what follows the first `#`; in front of it bytes that are not UTF-8 are always an error (a byte
+≥ 0x80 is no scheme / authority character, and path + query are checked with `from_utf8`). -/
+def decodeTarget (bs : List UInt8) : Option (List Char) :=
+  match String.fromUTF8? ⟨bs.toArray⟩ with
+  | some s => some s.toList
+  | none =>
+    let before := bs.takeWhile (· ≠ 0x23)
+    if before.length = bs.length then none else
+    match String.fromUTF8? ⟨before.toArray⟩ with
+    | some s => some (s.toList ++ ['#'])
+    | none => none
+
+def modelUri (h : String) : String :=
+  match decodeTarget (hexBytes h) with
+  | none => "err"
+  | some t =>
+    match pathOfTarget t with
+    | none => "err"
+    | some p => "path " ++ bytesHex (String.ofList p).toUTF8.toList
+
 /-- model output of one request line and the connections that are over afterwards
 (`Server.serveStep`: one step of `Server.serveCase`) -/
 def modelReq (l : String) (dead : List Nat) : String × List Nat :=
@@ -202,6 +226,7 @@ def modelLine (l : String) (dead : List Nat) : String × List Nat :=
     match encode (hexBytes h) with
     | some s => ("tok " ++ String.ofList s, dead)
     | none => ("panic", dead)
+  | ["uri", h] => (modelUri h, dead)
   | _ => ("bad-op", dead)
 
 def model (ls : List String) : List String :=
@@ -295,6 +320,49 @@ def judgeEnc (h o : String) : Bool × String :=
     else (true, "ok")
   | _ => (false, s!"bad output line {o}")
 
+def bytesHaveSub (sub : List UInt8) (l : List UInt8) : Bool :=
+  (List.range (l.length + 1)).any fun k => sub.isPrefixOf (l.drop k)
+
+/-- Specification of `Uri::path()` as far as C18 needs it: the path is a literal, contiguous piece of
+the request-target without `?` / `#`, ending where the target ends or a `?` / `#` follows; for a target
+that begins with `/` it is everything up to the first `?` / `#`; otherwise it is empty, `*`, the `/` an
+absent path reads as, or it begins with `/` and stands behind `<scheme>://<authority>` where the
+authority has no `/ ? #` in it. -/
+def judgeUri (h o : String) : Bool × String :=
+  let t := hexBytes h
+  let isEnd (b : UInt8) : Bool := b = 0x3F || b = 0x23
+  match words o with
+  | ["err"] => (true, "ok")
+  | ["path", ph] =>
+    let p := hexBytes ph
+    if p.any isEnd then (false, "Uri::path() contains ? or #")
+    else if t.head? = some 0x2F then
+      if p = t.takeWhile (fun b => !isEnd b) then (true, "ok")
+      else (false, "Uri::path() of an origin-form target is not the part before the first ? / #")
+    else if p = [] ∨ p = [0x2A] then
+      if p = [0x2A] ∧ t ≠ [0x2A] then (false, "Uri::path() is * for a target that is not *") else (true, "ok")
+    else
+      let okAt (k : Nat) : Bool :=
+        let a := t.take k
+        let b := t.drop (k + p.length)
+        p.isPrefixOf (t.drop k) && (b.isEmpty || (b.head?.map isEnd).getD false) && !a.any isEnd &&
+        bytesHaveSub [0x3A, 0x2F, 0x2F] a &&
+        -- no `/` between the first `://` and the path
+        (let i := (List.range a.length).find? fun i => [0x3A, 0x2F, 0x2F].isPrefixOf (a.drop i)
+         match i with
+         | some i => !(a.drop (i + 3)).any (· = 0x2F) && (a.drop (i + 3)).length > 0
+         | none => false)
+      if p = [0x2F] then
+        -- the `/` of the target itself, or an absent path
+        if (List.range (t.length + 1)).any fun k =>
+            okAt k || (k = t.length ∨ (t.drop k).head?.map isEnd = some true) && !(t.take k).any isEnd &&
+              bytesHaveSub [0x3A, 0x2F, 0x2F] (t.take k) then (true, "ok")
+        else (false, "Uri::path() is / but the target has no such path")
+      else if p.head? ≠ some 0x2F then (false, "Uri::path() does not begin with /")
+      else if (List.range t.length).any okAt then (true, "ok")
+      else (false, "Uri::path() is not the literal path of the target")
+  | _ => (false, s!"bad output line {o}")
+
 def judge (ops impl : List String) : Bool × String :=
   if ops.length ≠ impl.length then (false, "wrong number of output lines") else
   let rec go (ops impl : List String) (dead : List Nat) : Bool × String :=
@@ -312,6 +380,9 @@ def judge (ops impl : List String) : Bool × String :=
         if v.1 then go ls os dead else v
       | ["enc", h] =>
         let v := judgeEnc h o
+        if v.1 then go ls os dead else v
+      | ["uri", h] =>
+        let v := judgeUri h o
         if v.1 then go ls os dead else v
       | _ => (false, "bad-op")
     | _, _ => (true, "ok")
